@@ -592,3 +592,28 @@ Proof.
     apply in_range_of_bounds;
     (rewrite Rabs_pos_eq by lra) || (rewrite Rabs_left by lra); lra.
 Qed.
+
+(* non-vacuity witnesses used by Props/C13.v *)
+Lemma cadd_csub_rounding_bound_nonvacuous_lemma : in_range (FR (FloatInst.fz false 3 (-1)) + FR (FloatInst.fz false 3 0)).
+Proof.
+  assert (E : (FR (FloatInst.fz false 3 (-1)) + FR (FloatInst.fz false 3 0) = 4.5)%R).
+  { assert (E1 : FR (FloatInst.fz false 3 (-1)) = 1.5%R) by fr_eval.
+    assert (E2 : FR (FloatInst.fz false 3 0) = 3%R) by fr_eval. rewrite E1, E2. lra. }
+  rewrite E. apply in_range_of_bounds. rewrite Rabs_pos_eq by lra.
+  assert (B0 : (bpow radix2 (-1022) <= bpow radix2 0)%R) by (apply bpow_le; lia).
+  assert (B1 : (bpow radix2 3 <= bpow radix2 1023)%R) by (apply bpow_le; lia).
+  change (bpow radix2 0) with 1%R in B0. assert (P3 : bpow radix2 3 = 8%R) by (cbn; lra). lra.
+Qed.
+
+Lemma abs_sqr_cmul_r_rounding_bound_nonvacuous_lemma :
+  let a := FR (FloatInst.fz false 3 (-1)) in let b := FR (FloatInst.fz true 1 (-1)) in
+  in_range (a * a) /\ in_range (b * b) /\ in_range (a * b).
+Proof.
+  cbn zeta. assert (E1 : FR (FloatInst.fz false 3 (-1)) = 1.5%R) by fr_eval.
+  assert (E2 : FR (FloatInst.fz true 1 (-1)) = (-0.5)%R) by fr_eval. rewrite E1, E2.
+  assert (B0 : (bpow radix2 (-1022) <= bpow radix2 (-2))%R) by (apply bpow_le; lia).
+  assert (B1 : (bpow radix2 2 <= bpow radix2 1023)%R) by (apply bpow_le; lia).
+  assert (Pm2 : bpow radix2 (-2) = (/ 4)%R) by (cbn; lra). assert (P2 : bpow radix2 2 = 4%R) by (cbn; lra).
+  repeat split; apply in_range_of_bounds;
+    (rewrite Rabs_pos_eq by lra) || (rewrite Rabs_left by lra); lra.
+Qed.
